@@ -264,14 +264,17 @@ def tensorT (t : TensorD) (bufId : Nat) : Except String TensorT := do
   pure { shape := some shape, type := ty, buffer := bufId, name := some t.name, quant := t.quant.map quantT,
          isVariable := t.isVariable }
 
+/-- `assert c` / a guard: raise `e` unless `c` -/
+def check (c : Bool) (e : String) : Except String Unit := if c then pure () else throw e
+
 /-- the tensors of a subgraph in order, threading `buffers_to_write` -/
 def serialiseTensors : List (TensorD × Nat) → List (Option Data) → Except String (List TensorT × List (Option Data))
   | [], bufs => pure ([], bufs)
-  | (t, bufId) :: rest, bufs => do
-    if bufId == WriterTbl.bufIdxZero && t.values.isSome then throw "assert"
-    if bufId ≥ bufs.length then throw "index"
-    let tt ← tensorT t bufId
-    let r ← serialiseTensors rest (bufs.set bufId t.values)
+  | p :: rest, bufs => do
+    check (!(p.2 == WriterTbl.bufIdxZero && p.1.values.isSome)) "assert"
+    check (p.2 < bufs.length) "index"
+    let tt ← tensorT p.1 p.2
+    let r ← serialiseTensors rest (bufs.set p.2 p.1.values)
     pure (tt :: r.1, r.2)
 
 def mapIdx (all : List Nat) (t : Option Nat) : Option Nat :=
@@ -303,40 +306,50 @@ structure St where
   maps : List (List Nat)
 deriving Repr, Inhabited
 
+/-- the operators of the subgraph after the virtual outputs are cut off -/
+def sgOps (ps : PSub) : List POp := clearVirtual ps.ops ps.sg.virtualOutputs
+def sgOuts (ps : PSub) : List Nat := removeVirtual ps.sg.outputTensors ps.sg.virtualOutputs
+def sgSet (ps : PSub) : List Nat := tensorSet ps.sg.originalInputs (sgOps ps)
+/-- `all_tensors` -/
+def sgAll (ts : List TensorD) (ps : PSub) : List Nat := allTensors ts (sgSet ps)
+def sgTds (ts : List TensorD) (ps : PSub) : List TensorD := (sgAll ts ps).filterMap (ts[·]?)
+
+/-- the memory area of the scratch tensor (`None` without one); more than one scratch tensor is an assertion failure -/
+def scratchAreaOf (tds : List TensorD) : Except String (Option Nat) :=
+  match tds.filter (·.purpose == WriterTbl.purposeScratch) with
+  | [] => pure none
+  | [s] => pure (some s.memArea)
+  | _ => throw "assert"
+
+/-- `[sg.output_tensors[pos] for pos in sg.original_output_positions]` -/
+def outputList (positions : Option (List Nat)) (outs : List Nat) : Except String (List Nat) :=
+  match positions with
+  | none => pure outs
+  | some pos => pos.mapM fun p => match outs[p]? with
+    | some t => pure t
+    | none => throw "index"
+
+/-- `[self.tensor_map_sg[tens] for tens in … if tens in self.tensor_map_sg]` -/
+def idxList (all : List Nat) (l : List Nat) : List Int := l.filterMap fun t => (indexIn all t).map Int.ofNat
+
 def serialiseSubgraph (ts : List TensorD) (codes : List Code) (st : St) (ps : PSub) : Except String (SubGraphT × St) := do
-  let sg := ps.sg
-  let ops := clearVirtual ps.ops sg.virtualOutputs
-  let outs := removeVirtual sg.outputTensors sg.virtualOutputs
-  let set := tensorSet sg.originalInputs ops
-  if !(refsOk ts set && refsOk ts sg.inputTensors && refsOk ts outs) then throw "ref"
-  let all := allTensors ts set
-  let tds := all.filterMap (ts[·]?)
-  let scratch := tds.filter (·.purpose == WriterTbl.purposeScratch)
-  let scratchArea ← match scratch with
-    | [] => pure none
-    | [s] => pure (some s.memArea)
-    | _ => throw "assert"
-  let (bufIds, bufIdx) := assignBuffers scratchArea tds st.bufIdx
-  let bufs0 := st.buffers ++ List.replicate bufIdx none
-  let (tensors, bufs) ← serialiseTensors (tds.zip bufIds) bufs0
-  if !(sg.inputTensors.all fun t => sg.originalInputs.contains t) then throw "assert"
-  let inputs : List Int := sg.originalInputs.filterMap fun t => (indexIn all t).map Int.ofNat
-  let outs2 ← match sg.originalOutputPositions with
-    | none => pure outs
-    | some pos => pos.mapM fun p => match outs[p]? with
-      | some t => pure t
-      | none => throw "index"
-  let outputs : List Int := outs2.filterMap fun t => (indexIn all t).map Int.ofNat
-  let operators ← (ops.filter (!·.ignored)).mapM (serialiseOperator codes all)
-  pure ({ tensors := tensors, inputs := some inputs, outputs := some outputs, operators := operators, name := some sg.name },
-        { bufIdx := bufIdx, buffers := bufs, maps := st.maps ++ [all] })
+  check (refsOk ts (sgSet ps) && refsOk ts ps.sg.inputTensors && refsOk ts (sgOuts ps)) "ref"
+  let area ← scratchAreaOf (sgTds ts ps)
+  let tb ← serialiseTensors ((sgTds ts ps).zip (assignBuffers area (sgTds ts ps) st.bufIdx).1)
+             (st.buffers ++ List.replicate (assignBuffers area (sgTds ts ps) st.bufIdx).2 none)
+  check (ps.sg.inputTensors.all fun t => ps.sg.originalInputs.contains t) "assert"
+  let outs2 ← outputList ps.sg.originalOutputPositions (sgOuts ps)
+  let operators ← ((sgOps ps).filter (!·.ignored)).mapM (serialiseOperator codes (sgAll ts ps))
+  pure ({ tensors := tb.1, inputs := some (idxList (sgAll ts ps) ps.sg.originalInputs), outputs := some (idxList (sgAll ts ps) outs2),
+          operators := operators, name := some ps.sg.name },
+        { bufIdx := (assignBuffers area (sgTds ts ps) st.bufIdx).2, buffers := tb.2, maps := st.maps ++ [sgAll ts ps] })
 
 def serialiseSubgraphs (ts : List TensorD) (codes : List Code) : List PSub → St → Except String (List SubGraphT × St)
   | [], st => pure ([], st)
   | ps :: rest, st => do
-    let (sg, st1) ← serialiseSubgraph ts codes st ps
-    let (sgs, st2) ← serialiseSubgraphs ts codes rest st1
-    pure (sg :: sgs, st2)
+    let r ← serialiseSubgraph ts codes st ps
+    let rs ← serialiseSubgraphs ts codes rest r.2
+    pure (r.1 :: rs.1, rs.2)
 
 /-! ## `serialise_model` -/
 
@@ -379,17 +392,22 @@ def metadataToWrite (d : Desc) (maps : List (List Nat)) : Except String (List Me
 
 def descriptionOf (version : Bytes) : Bytes := utf8 "Vela " ++ version ++ utf8 " Optimised"
 
+def st0 : St := { bufIdx := WriterTbl.bufIdxStart, buffers := [], maps := [] }
+
+/-- `serialise_model`, last part: metadata buffers are appended behind the tensor buffers -/
+def assemble (d : Desc) (opcodes : List OpCodeT) (sgs : List SubGraphT) (st : St) (metas : List MetaW) : ModelT :=
+  { fileId := WriterTbl.fileIdentifier, version := WriterTbl.tfliteVersion, opcodes := opcodes, subgraphs := sgs,
+    description := some (descriptionOf d.version),
+    buffers := (st.buffers ++ metas.map (·.data)).map fun b => { data := b },
+    metadata := metas.zipIdx.map fun m => { name := some m.1.name, buffer := st.buffers.length + m.2 } }
+
 /-- the file for the graph `d` when the set of operator codes is iterated in the order `enum` -/
 def writeWith (d : Desc) (enum : List Code) : Except String ModelT := do
   let subs ← (subgraphsToWrite d).mapM (prepSub d.tensors)
-  let codes := sortCodes enum
-  let opcodes ← codes.mapM serialiseOpCode
-  let (sgs, st) ← serialiseSubgraphs d.tensors codes subs { bufIdx := WriterTbl.bufIdxStart, buffers := [], maps := [] }
-  let metas ← metadataToWrite d st.maps
-  let buffers := st.buffers ++ metas.map (·.data)
-  let metadata : List MetadataT := metas.zipIdx.map fun (m, i) => { name := some m.name, buffer := st.buffers.length + i }
-  pure { fileId := WriterTbl.fileIdentifier, version := WriterTbl.tfliteVersion, opcodes := opcodes, subgraphs := sgs,
-         description := some (descriptionOf d.version), buffers := buffers.map fun b => { data := b }, metadata := metadata }
+  let opcodes ← (sortCodes enum).mapM serialiseOpCode
+  let r ← serialiseSubgraphs d.tensors (sortCodes enum) subs st0
+  let metas ← metadataToWrite d r.2.maps
+  pure (assemble d opcodes r.1 r.2 metas)
 
 /-- the operator codes of `d` in order of first occurrence (one possible iteration order of the Python `set`) -/
 def codesOf (d : Desc) : Except String (List Code) := do
